@@ -198,6 +198,30 @@ def run(pid, tier, replay=None):
                 if bad:
                     v.violation(f"{cid} under schedule {sname}: {bad}"[:500], {"id": cid, "schedule": sched, "source": src, "predicted_events": b["evs"][:60],
                                                                               "stdout": r.get("stdout", "")[:1500]})
+    # single-fiber channel scripts that wrap the ring buffer, judged by the contract Fibers.tla
+    if pid == "C05":
+        wraps = schedlib.wrap_programs(rnd, 60 if tier == "quick" else 1500)
+        runs = []
+        for sname, sched in scheds[:2]:
+            vmcases = [{"id": f"wrap{i}|{sname}", "files": {"main.lay": src}, "gc": sched, "classes": ["sched"], "max_events": 20000} for i, src in enumerate(wraps)]
+            res = vlib.run_batch(binary, vmcases, per_case_timeout=40)
+            for c in vmcases:
+                r = res[c["id"]]
+                judged += 1
+                obs = [schedlib.norm_event(e) for e in r.get("events", [])]
+                runs.append((c["id"], obs))
+                # what is printed must be what was sent, in order: "v<k>" or ["v<k>", k]
+                got = r.get("stdout", "").splitlines()
+                sent = [e["v"] for e in obs if e["ev"] == "send" and e["res"] == "ok"]
+                import re as _re
+                ks = [int(x) for l in got for x in _re.findall(r"v(\d+)", l)]
+                exp = list(range(1, len(ks) + 1))
+                if r["status"] not in ("ok",) or ks != exp or any(("v" not in l and "nil" not in l) for l in got):
+                    v.violation(f"{c['id']}: buffered values corrupted or lost under collection: printed {got[:10]} status {r['status']} {r.get('panic', '')}"[:500],
+                                {"id": c["id"], "schedule": sched, "source": c["files"]["main.lay"], "stdout": r.get("stdout", "")[:1500]})
+        rejw = c_sched.validate_traces(runs, v)
+        for rid, (cls, at) in rejw.items():
+            v.violation(f"{rid}: channel contract refuses observed event #{at}: {cls}", {"id": rid})
     if traces:
         for rej in validate_gc(traces, v):
             cid = rej["run"].split("|")[0]
